@@ -77,7 +77,7 @@ class CacheModel:
             if not dels and not sets and name != "__init__":
                 calls = A.body_calls(m.node)
                 rem = [c for c in calls if A.call_attr(c) == "remove" and self_attr(A.call_recv(c), self.queue)]
-                app = [c for c in calls if A.call_attr(c) == "append" and self_attr(A.call_recv(c), self.queue)]
+                app = [c for c in calls if A.call_attr(c) in ("append", "appendleft") and self_attr(A.call_recv(c), self.queue)]
                 if rem and app and len(m.params) == 2:
                     self.mark_used.append(m)
         if len(self.evict) != 1:
